@@ -76,6 +76,12 @@ CHECKS = {
    text="A server pre-loaded with a generated RIB and a second idle session receives one message: every constructed invalid class, 1-3 structural mutations (undefined enum numbers, cleared sub-messages, duplicated list keys, invalid UTF-8, boundary integers, junk strings) of valid full-field operations, or a malformed Get/Flush. The operation is first applied to a twin RIB under recover (a panic there is a violation with the case), then sent through the server: exactly one in-band result or a clean RPC error on that session only; the idle session sees nothing and afterwards wins an election and programs an entry; rejected operations leave contents, held set and counters identical, accepted mutants change only their own key and keep counters and Get consistent.",
    note="Trusted: classification of the constructed classes as invalid (from the property text); the in-process stream (delivers messages gRPC's codec would refuse). A crash of the test process is reported by the driver as a violation with the in-flight case.",
    design="DESIGN.md §4 C12"),
+ "C10": dict(
+   technique="fault enumeration over generated scripts: every cut point x termination mode (in-process streams give exact cut points), prefix-of-sent-operations oracle, probe session under a watchdog with goroutine-dump attribution",
+   level="fault_enumeration",
+   text="For every generated Modify script all single faults are enumerated: the client goes away after each message sent, after each response read, at the K-th response inside a batch (send failure, or flow-control stall followed by cancel), by half-close, cancel or transport error; Gets are abandoned after each received response 0..n; plus random sequences of 2-3 faults. Once the RPC has ended and its goroutines are parked, entries read through a fresh Get must equal the model state after some prefix of the sent operations that includes every acknowledged one, the learnt election id must be the maximum delivered, the session footprint must be gone, and a probe session (negotiate, win election, ADD, Get, Flush) must complete; a watchdog expiry counts only with a gribigo frame parked on a lock/channel.",
+   note="Trusted: belief model (servers run with forward references disallowed so unanswered operations are deterministic); goroutine-state quiescence; emulation of transport faults at the stream interface (kernel-level failures out of reach).",
+   design="DESIGN.md §4 C10"),
 }
 NOT_YET = {}
 
